@@ -15,6 +15,7 @@ import (
 	"time"
 
 	"github.com/jamf/regatta/regattapb"
+	"github.com/jamf/regatta/regattaserver"
 	serrors "github.com/jamf/regatta/storage/errors"
 	"github.com/jamf/regatta/storage/table"
 	"github.com/jamf/regatta/storage/table/fsm"
@@ -373,6 +374,33 @@ type ConcCase struct {
 	// taking part in consensus.  Stall: 0 nobody, 1-3 that node, 4 the node that leads the table's raft group.
 	Stall   int `json:"stall,omitempty"`
 	StallUs int `json:"stall_us,omitempty"`
+	// API: the clients talk to their node's KV API handlers (one regattaserver.KVServer per node, shared by the node's clients, as the gRPC
+	// server shares it between connections) instead of calling the engine directly (seeded change C10-K: identical linearizable reads that
+	// are in flight together share one read - the later one may have started after a write the shared read does not reflect)
+	API bool `json:"api,omitempty"`
+}
+
+// kvAPI: what the clients of the concurrent histories call - the engine itself or the API handler in front of it
+type kvAPI interface {
+	Put(context.Context, *regattapb.PutRequest) (*regattapb.PutResponse, error)
+	DeleteRange(context.Context, *regattapb.DeleteRangeRequest) (*regattapb.DeleteRangeResponse, error)
+	Txn(context.Context, *regattapb.TxnRequest) (*regattapb.TxnResponse, error)
+	Range(context.Context, *regattapb.RangeRequest) (*regattapb.RangeResponse, error)
+}
+
+type engineAPI struct{ e regattaserver.KVService }
+
+func (a engineAPI) Put(ctx context.Context, r *regattapb.PutRequest) (*regattapb.PutResponse, error) {
+	return a.e.Put(ctx, r)
+}
+func (a engineAPI) DeleteRange(ctx context.Context, r *regattapb.DeleteRangeRequest) (*regattapb.DeleteRangeResponse, error) {
+	return a.e.Delete(ctx, r)
+}
+func (a engineAPI) Txn(ctx context.Context, r *regattapb.TxnRequest) (*regattapb.TxnResponse, error) {
+	return a.e.Txn(ctx, r)
+}
+func (a engineAPI) Range(ctx context.Context, r *regattapb.RangeRequest) (*regattapb.RangeResponse, error) {
+	return a.e.Range(ctx, r)
 }
 
 func genConc(t *rapid.T) ConcCase {
@@ -380,6 +408,7 @@ func genConc(t *rapid.T) ConcCase {
 	for i := 0; i < c.Clients; i++ {
 		c.Ops = append(c.Ops, rapid.SliceOfN(rapid.IntRange(0, 6), 3, 15).Draw(t, "ops"))
 	}
+	c.API = rapid.Bool().Draw(t, "api")
 	return c
 }
 
@@ -488,11 +517,22 @@ func runConcOn(c ConcCase, o *vt.Obs, nodes []*enginefx.Fixture) *vt.Failure {
 	var firstErr error
 	var wg sync.WaitGroup
 	keys := [][]byte{[]byte("k0"), []byte("k1"), []byte("k2")}
+	apis := make([]kvAPI, len(nodes))
+	for i, n := range nodes {
+		if c.API {
+			apis[i] = &regattaserver.KVServer{Storage: n.E}
+		} else {
+			apis[i] = engineAPI{n.E}
+		}
+	}
+	if c.API {
+		o.Label("clients-call-the-kv-api-handlers")
+	}
 	for ci := 0; ci < c.Clients; ci++ {
 		wg.Add(1)
 		go func(ci int) {
 			defer wg.Done()
-			eng := nodes[ci%len(nodes)]
+			eng := apis[ci%len(nodes)]
 			for oi, kind := range c.Ops[ci] {
 				ctx, cancel := context.WithTimeout(context.Background(), 20*time.Second)
 				ev := event{client: ci, kind: kind, key: keys[(ci+oi)%len(keys)]}
@@ -502,13 +542,13 @@ func runConcOn(c ConcCase, o *vt.Obs, nodes []*enginefx.Fixture) *vt.Failure {
 				switch kind {
 				case 0:
 					var r *regattapb.PutResponse
-					r, err = eng.E.Put(ctx, &regattapb.PutRequest{Table: []byte(name), Key: ev.key, Value: ev.val})
+					r, err = eng.Put(ctx, &regattapb.PutRequest{Table: []byte(name), Key: ev.key, Value: ev.val})
 					if err == nil {
 						ev.rev = r.Header.Revision
 					}
 				case 1:
 					var r *regattapb.DeleteRangeResponse
-					r, err = eng.E.Delete(ctx, &regattapb.DeleteRangeRequest{Table: []byte(name), Key: ev.key})
+					r, err = eng.DeleteRange(ctx, &regattapb.DeleteRangeRequest{Table: []byte(name), Key: ev.key})
 					if err == nil {
 						ev.rev = r.Header.Revision
 					}
@@ -523,14 +563,14 @@ func runConcOn(c ConcCase, o *vt.Obs, nodes []*enginefx.Fixture) *vt.Failure {
 						req.Failure = put
 					}
 					var r *regattapb.TxnResponse
-					r, err = eng.E.Txn(ctx, req)
+					r, err = eng.Txn(ctx, req)
 					if err == nil {
 						ev.rev = r.Header.Revision
 						ev.succeeded = r.Succeeded
 					}
 				case 4, 5:
 					var r *regattapb.RangeResponse
-					r, err = eng.E.Range(ctx, &regattapb.RangeRequest{Table: []byte(name), Key: []byte("k"), RangeEnd: []byte("l"), Linearizable: kind == 4})
+					r, err = eng.Range(ctx, &regattapb.RangeRequest{Table: []byte(name), Key: []byte("k"), RangeEnd: []byte("l"), Linearizable: kind == 4})
 					if err == nil {
 						for _, kv := range r.Kvs {
 							ev.seen = append(ev.seen, [2]string{string(kv.Key), string(kv.Value)})
@@ -538,7 +578,7 @@ func runConcOn(c ConcCase, o *vt.Obs, nodes []*enginefx.Fixture) *vt.Failure {
 					}
 				case 6:
 					var r *regattapb.TxnResponse
-					r, err = eng.E.Txn(ctx, &regattapb.TxnRequest{Table: []byte(name), Success: []*regattapb.RequestOp{{Request: &regattapb.RequestOp_RequestRange{RequestRange: &regattapb.RequestOp_Range{Key: []byte("k"), RangeEnd: []byte("l")}}}}})
+					r, err = eng.Txn(ctx, &regattapb.TxnRequest{Table: []byte(name), Success: []*regattapb.RequestOp{{Request: &regattapb.RequestOp_RequestRange{RequestRange: &regattapb.RequestOp_Range{Key: []byte("k"), RangeEnd: []byte("l")}}}}})
 					if err == nil {
 						for _, kv := range r.Responses[0].GetResponseRange().Kvs {
 							ev.seen = append(ev.seen, [2]string{string(kv.Key), string(kv.Value)})
